@@ -1,0 +1,18 @@
+//go:build verif
+
+package uu
+
+// Contracts for the verification machinery in /verif (govc).  This file is
+// comment-only and is compiled only with -tags verif.
+
+//@ func AppendDecode(dst, src) (res, err)
+//@   props C15
+//@   loop 1 counter lineN
+//@   loop 1.1 counter c
+//@     invariant off: offset == 1 + 4*c
+//@     invariant rem: nDecRem <= nDec && nDecRem >= 0
+//@   loop 1.1.1
+//@   loop 1.1.2
+
+//@ func AppendEncode(dst, src) (res)
+//@   props C15
